@@ -121,7 +121,7 @@ def child_env(extra):
     return e
 
 
-def run_chunk(items, idxs, env, results, timeout=600):
+def run_chunk(items, idxs, env, results, timeout=150):
     """Run items[idxs] in one child process under `env`; a child that dies (abort, stack overflow, timeout) loses
     only the program it was running: the rest of the chunk is run again in a new child."""
     import subprocess
@@ -449,16 +449,22 @@ def long_list_as_later_operand(text):
 
 
 def const_test_if_operand(text):
-    """K02n: some application has an operand (if (<cmp> <literal> <literal>) ...) - a conditional whose test is
-    constant - or (if #true/#false ...)."""
+    """K02n: some application has an operand that is or contains a conditional whose test is a constant:
+    (if <literal> ...), (if (<cmp> <literal> <literal>) ...), or a cond clause with such a test."""
     lit = lambda y: isinstance(y, str) and re.fullmatch(r"-?\d+|#t|#f|#true|#false", y) is not None
+    const_test = lambda t: lit(t) or (isinstance(t, list) and len(t) == 3 and isinstance(t[0], str) and all(lit(z) for z in t[1:]))
 
-    def const_if(y):
-        return isinstance(y, list) and len(y) >= 3 and y[0] == "if" and (
-            lit(y[1]) or (isinstance(y[1], list) and len(y[1]) == 3 and all(lit(z) for z in y[1][1:])))
+    def const_cond(y):
+        if not isinstance(y, list) or len(y) < 3:
+            return False
+        if y[0] == "if":
+            return const_test(y[1])
+        if y[0] == "cond":
+            return any(isinstance(c, list) and c and const_test(c[0]) for c in y[1:])
+        return False
 
     for app in _applications(read_sexps(text)):
-        if any(const_if(b) for b in app[1:]):
+        if any(_contains(b, const_cond) for b in app[1:]):
             return True
     return False
 
@@ -788,7 +794,11 @@ def corpus_items():
         for p in text.split(SEP):
             if p.strip():
                 pieces = [x.strip("\n") for x in p.strip("\n").split(PSEP)]
-                out.append((fn, pieces, cls))
+                c = dict(cls)
+                # the class predicates look at the source of the required corpus modules too
+                mods = re.findall(r'\(require "(/verif/corpus/C02/mods/[^"]+)"\)', p)
+                c["text"] = "\n".join(open(m).read() for m in mods if os.path.exists(m))
+                out.append((fn, pieces, c))
     return out
 
 
@@ -949,18 +959,16 @@ def run(ctx):
     # 2b. the same kind of programs evaluated as a MODULE (`(require "<file>")`, which is how `steel file.scm` runs
     #     a script): inside a module the builtins are `#%prim.`-qualified and compile to the specialised op codes
     #     that the native tier implements itself, so this stream reaches far more of the native code than top-level
-    #     code does.  Values are made observable by printing them; programs that raise errors on purpose are left
-    #     out (an error inside native module code is finding K02e: covered by the jitops stream).
+    #     code does.  Values are made observable by printing them.  (All shapes of gen/progs.py: internal define
+    #     sequences, vectors and boxes mutated in let bodies, handlers, apply with rest arguments, dead branches.)
     b = Batch("prog-as-module")
     b.nospec = True
     pm_dir = os.path.join(ctx.scratch, "mods")
     os.makedirs(pm_dir, exist_ok=True)
-    want, tries = (24 if q else 200), 0
+    want, tries = (40 if q else 400), 0
     while len(b.items) < want and tries < want * 6:
         tries += 1
         src, feats = gen_program(rng, 3 if q else 4)
-        if "handler" in feats:
-            continue
         forms = [f if f.startswith("(define ") else "(displayln %s)" % f for f in src.split("\n")]
         text = "\n".join(forms) + "\n"
         import hashlib
